@@ -44,6 +44,18 @@ def writable_sections():
             o = os.path.join(b, core.objname(s))
             cmds.append(['gcc', '-std=gnu99', '-O2', '-fPIC'] + extra + ['-I' + os.path.join(core.REPO, 'include'), '-c', s, '-o', o])
             objs.append(o)
+    # ... and of a client translation unit per public header (static inline functions kept): a function-local static in a
+    # header is writable state in every program that includes it, although no library object contains it
+    inc = os.path.join(core.REPO, 'include')
+    hb = os.path.join(core.ROOT, 'build', 'C16', 'client')
+    os.makedirs(hb, exist_ok=True)
+    for h in sorted(glob.glob(os.path.join(inc, '**', '*.h'), recursive=True)):
+        rel = os.path.relpath(h, inc)
+        src = os.path.join(hb, re.sub(r'\W', '_', rel) + '.c')
+        open(src, 'w').write('#include "%s"\n' % rel)
+        o = src[:-2] + '.client.o'
+        cmds.append(['gcc', '-std=gnu99', '-O0', '-fkeep-inline-functions', '-w', '-I' + inc, '-c', src, '-o', o])
+        objs.append(o)
     core.par(cmds)
     bad = []
     for o in objs:
@@ -51,9 +63,9 @@ def writable_sections():
         for line in out.splitlines():
             p = line.split()
             if len(p) >= 2 and p[0] in ('.data', '.bss', '.tbss', '.tdata') and p[1].isdigit() and int(p[1]) > 0:
-                bad.append('%s%s %s=%s' % (os.path.basename(o), ' (no byte-order macros)' if 'nomacro' in o else '', p[0], p[1]))
+                bad.append('%s%s %s=%s' % (os.path.basename(o).replace('.client.o', ' (a unit that only includes this header)'), ' (no byte-order macros)' if 'nomacro' in o else '', p[0], p[1]))
             if len(p) >= 2 and p[0].startswith(('.data.', '.bss.')) and not p[0].startswith('.data.rel.ro') and p[1].isdigit() and int(p[1]) > 0:
-                bad.append('%s%s %s=%s' % (os.path.basename(o), ' (no byte-order macros)' if 'nomacro' in o else '', p[0], p[1]))
+                bad.append('%s%s %s=%s' % (os.path.basename(o).replace('.client.o', ' (a unit that only includes this header)'), ' (no byte-order macros)' if 'nomacro' in o else '', p[0], p[1]))
     return bad, len(objs)
 
 
@@ -143,7 +155,7 @@ def free_running_tsan(b, tier):
     srcs = core.repo_sources() + sorted(glob.glob(os.path.join(g, 'wrap_*.c'))) + [os.path.join(core.ROOT, 'world', w) for w in WSRC] + \
         [os.path.join(core.ROOT, 'world', 'toy.c'), os.path.join(core.ROOT, 'engine', 'tsan_free.c'), os.path.join(g, 'rows_gen.c')]
     exe = os.path.join(d, 'tsan_free')
-    r = core.sh(['clang', '-std=gnu99', '-O1', '-g', '-fsanitize=thread', '-I' + os.path.join(core.REPO, 'include'), '-I' + os.path.join(core.ROOT, 'world'),
+    r = core.sh(['clang', '-std=gnu99', '-O1', '-g', '-fsanitize=thread', '-DW_TLS=__thread', '-I' + os.path.join(core.REPO, 'include'), '-I' + os.path.join(core.ROOT, 'world'),
                  '-I' + g, '-I' + os.path.join(core.ROOT, 'engine')] + srcs + ['-o', exe, '-lpthread'])
     if r.returncode != 0:
         return {'summary': 'not built: ' + r.stderr[-300:]}
